@@ -56,16 +56,16 @@ Definition helper_witness_set (r : redeemers) (d : option plutus_list) : witness
 
 (* ------------------------------------------------------------------ premises / classes (decidable) *)
 
-Fixpoint has_dup_ids (seen : list N) (l : list pdata) : bool :=
+Fixpoint has_dup_written (seen : list bytes) (l : list pdata) : bool :=
   match l with
   | [] => false
-  | x :: t => existsb (N.eqb (pd_id x)) seen || has_dup_ids (pd_id x :: seen) t
+  | x :: t => existsb (bytes_eqb (pd_bytes x)) seen || has_dup_written (pd_bytes x :: seen) t
   end.
 
-(* known class C09-set-bytes-length: a datum list that will be written with a definite length and holds the same
-   datum twice (only lists decoded from a definite-length encoding can be in it) *)
+(* known class C09-set-bytes-length: a datum list that will be written with a definite length and holds two datums
+   written as the same bytes (only lists decoded from a definite-length encoding can be in it) *)
 Definition known_dup_definite (d : option plutus_list) : bool :=
-  match d with Some l => pl_use_definite l && has_dup_ids [] (pl_elems l) | None => false end.
+  match d with Some l => pl_use_definite l && has_dup_written [] (pl_elems l) | None => false end.
 
 (* known class C09-empty-datums: Some(empty list) passed as the datums *)
 Definition known_empty_datums (d : option plutus_list) : bool :=
